@@ -14,6 +14,7 @@ import (
 	"github.com/go-i2p/crypto/ed25519"
 	elgamal "github.com/go-i2p/crypto/elg"
 	"github.com/go-i2p/crypto/types"
+	"go.step.sm/crypto/x25519"
 )
 
 // SigningPub builds the go-i2p/crypto public key object for wire bytes of a signing type
@@ -94,4 +95,15 @@ func SigningPriv(kp refmodel.KeyPair) (types.SigningPrivateKey, error) {
 func newEdPriv(priv []byte) *ed25519.Ed25519PrivateKey {
 	k := ed25519.Ed25519PrivateKey(append([]byte(nil), priv...))
 	return &k
+}
+
+// X25519Pair derives a deterministic X25519 key pair (public, private) in the typed forms
+// EncryptInnerLeaseSet2 / DecryptInnerData accept.
+func X25519Pair(seed uint64) (x25519.PublicKey, x25519.PrivateKey) {
+	priv := x25519.PrivateKey(refmodel.Fill("x25519", seed, 32))
+	pub, err := priv.PublicKey()
+	if err != nil {
+		panic(err)
+	}
+	return pub, priv
 }
